@@ -14,6 +14,7 @@
 -/
 import Nervus.Proofs.CypherUpdate
 import Nervus.Proofs.CypherUpdateRows
+import Nervus.Proofs.CypherLastWins
 import Nervus.Model.QAlgebra
 namespace Nervus.Props.C12
 open Nervus Nervus.Cy
@@ -82,11 +83,8 @@ theorem update_refines_rows (fm : Update.St → Update.URow → Except Err (Upda
       R T m' sp' :=
   rows_simulation_prefix fm fs R T hstep T [] (by simp) m sp [] [] h0
 
-/-- **update_refines (SET x.k = e, every table)**: rows bind `x` to nodes and give `e` a storable non-null value.
-    The SetProperty stage issues one `set_node_property` per row in row order; committed to the snapshot the
-    calls yield exactly the reference's graph, the counts agree (`USim`: graph, next id, total count, distinct
-    ids). -/
-theorem update_refines_set_prop_rows (A : Algebra) (params : List (String × Val)) (g : Graph)
+/-- node-only form of `update_refines_set_prop_rows` (kept for reference) -/
+theorem update_refines_set_prop_rows_nodes (A : Algebra) (params : List (String × Val)) (g : Graph)
     (hg : g.NodesDistinct) (next : Nat) (names : List String) (w : Update.WPlan) (x k : String) (e : Expr)
     (T : Table)
     (hT : ∀ r ∈ T, ∃ n pv, r.get x = some (.node n) ∧ Update.toProp (eval A { g, params } r e) = .ok pv ∧
@@ -96,6 +94,69 @@ theorem update_refines_set_prop_rows (A : Algebra) (params : List (String × Val
       Spec.applyClause A params { g, next } T (.set [.prop x k e]) = .ok (sp, T) ∧
       USim g next m sp :=
   Nervus.Cy.update_refines_set_prop_rows A params g hg next names w x k e T hT
+
+/-! ### the last assignment wins (the class of seeded/C12-seed1: a write elided against the snapshot) -/
+
+/-- **update_refines (SET x.k = e, every table)** — no "distinct target", no "value differs" proviso: for every
+    driving table whose rows bind `x` to a node or a relationship and give `e` a storable non-null value — the same
+    (entity, key) as often as the table likes, with values that may come back to the stored one — the SetProperty
+    stage issues exactly one `set_*_property` call per row, in row order (`m.ops = T.filterMap assignOf`: the staged
+    write log is the list of calls actually issued, nothing is elided); committing that log to the snapshot yields
+    exactly the graph of the reference SET clause, with the same count. -/
+theorem update_refines_set_prop_rows (A : Algebra) (params : List (String × Val)) (g : Graph)
+    (hg : g.NodesDistinct) (hgr : g.rels.Pairwise fun a b => a.id ≠ b.id) (next : Nat) (names : List String)
+    (w : Update.WPlan) (x k : String) (e : Expr) (T : Table)
+    (hT : ∀ r ∈ T, ∃ pv, Update.toProp (eval A { g, params } r e) = .ok pv ∧ pv ≠ .null ∧
+      ((∃ n, r.get x = some (.node n)) ∨ (∃ ed, r.get x = some (.rel ed)))) :
+    ∃ m T' sp, Update.runStage A params g next names w {} (T.map fun r => { row := r }) (.setProperty [(x, k, e)]) =
+        .ok (m, T') ∧
+      Spec.applyClause A params { g, next } T (.set [.prop x k e]) = .ok (sp, T) ∧
+      USimR g next m sp ∧ m.ops = T.filterMap (assignOf A params g x k e) :=
+  update_refines_set_prop_rows_log A params g hg hgr next names w x k e T hT
+
+/-- **the last assignment wins** (commit contract): after committing a log of `set_*_property` calls, every
+    (node, key) holds the value of the last call naming it — else its previous value; same for relationships -/
+theorem last_assignment_wins (ops : List Update.TxOp) (hops : ∀ op ∈ ops, isSet op = true) (g : Graph) :
+    (∀ n k, (g.node? n).isSome = true →
+      nodeVal (Update.applyOps g ops) n k = (lastNodeSet ops n k).or (nodeVal g n k)) ∧
+    (∀ r k, (g.rel? r).isSome = true →
+      relVal (Update.applyOps g ops) r k = (lastRelSet ops r k).or (relVal g r k)) :=
+  ⟨fun n k hn => (last_assignment_wins_node ops hops g n k hn).1,
+   fun r k hr => (last_assignment_wins_rel ops hops g r k hr).1⟩
+
+/-- … end to end: what the reference graph (= the committed model graph) holds after `SET x.k = e` over any table -/
+theorem update_refines_set_prop_last_wins (A : Algebra) (params : List (String × Val)) (g : Graph)
+    (hg : g.NodesDistinct) (hgr : g.rels.Pairwise fun a b => a.id ≠ b.id) (next : Nat) (x k : String) (e : Expr)
+    (T : Table)
+    (hT : ∀ r ∈ T, ∃ pv, Update.toProp (eval A { g, params } r e) = .ok pv ∧ pv ≠ .null ∧
+      ((∃ n, r.get x = some (.node n)) ∨ (∃ ed, r.get x = some (.rel ed)))) :
+    ∃ sp, Spec.applyClause A params { g, next } T (.set [.prop x k e]) = .ok (sp, T) ∧
+      (∀ n k', (g.node? n).isSome = true →
+        nodeVal sp.g n k' = (lastNodeSet (T.filterMap (assignOf A params g x k e)) n k').or (nodeVal g n k')) ∧
+      (∀ r k', (g.rel? r).isSome = true →
+        relVal sp.g r k' = (lastRelSet (T.filterMap (assignOf A params g x k e)) r k').or (relVal g r k')) :=
+  set_prop_rows_last_wins A params g hg hgr next x k e T hT
+
+/-- **write elision is sound only against `committed ⊕ staged so far`**: leaving `set_node_property(n, k, v)` out of
+    the log is unobservable when `v` is the value visible for (n, k) after the calls issued BEFORE it … -/
+theorem write_elision_sound (g : Graph) (pre post : List Update.TxOp) (hpre : ∀ op ∈ pre, isSet op = true)
+    (hpost : ∀ op ∈ post, isSet op = true) (n : Nat) (k : String) (v : Scalar)
+    (hvis : nodeVal (Update.applyOps g pre) n k = some v) (n' : Nat) (k' : String)
+    (hn' : (g.node? n').isSome = true) :
+    nodeVal (Update.applyOps g (pre ++ [.setNodeProp n k v] ++ post)) n' k' =
+      nodeVal (Update.applyOps g (pre ++ post)) n' k' :=
+  elide_sound_node g pre post hpre hpost n k v hvis n' k' hn'
+
+/-- … and observable whenever the visible value differs and no later call assigns (n, k) again — so a comparison
+    with the pre-statement snapshot (`nodeVal g n k = some v`) does not justify the elision once an earlier call of
+    the same log has changed (n, k) -/
+theorem write_elision_unsound (g : Graph) (pre post : List Update.TxOp) (hpre : ∀ op ∈ pre, isSet op = true)
+    (hpost : ∀ op ∈ post, isSet op = true) (n : Nat) (k : String) (v : Scalar)
+    (hn : (g.node? n).isSome = true)
+    (hvis : nodeVal (Update.applyOps g pre) n k ≠ some v) (hlast : lastNodeSet post n k = none) :
+    nodeVal (Update.applyOps g (pre ++ [.setNodeProp n k v] ++ post)) n k = some v ∧
+    nodeVal (Update.applyOps g (pre ++ post)) n k ≠ some v :=
+  elide_unsound_node g pre post hpre hpost n k v hn hvis hlast
 
 /-- **update_refines (SET x:L1:L2…, every table in which no node is targeted by two rows)** -/
 theorem update_refines_set_labels_rows (A : Algebra) (params : List (String × Val)) (g : Graph)
@@ -148,6 +209,39 @@ example : UAgrees (Update.step small [] g1 2 ["A", "B", "T"] createB) (Spec.appl
 example : (targetsOf "n" ([[("n", Val.node 0)], [("n", Val.node 1)]].map fun r => ({ row := r } : Update.URow))).Nodup := by
   decide
 example : USim g1 2 {} { g := g1, next := 2 } := USim.init g1 (by decide) 2
+
+/-- the seed's scenario: `v` = 0 stored, `UNWIND [5, 0] AS x MATCH (n:P) SET n.v = x` — model and reference agree,
+    the node ends with v = 0, and no finding is triggered (a repeated plain assignment is outside every trigger) -/
+def gP : Graph := ⟨[⟨0, ["P"], [("v", .int 0)]⟩], [⟨⟨0, "T", 0⟩, 1, [("w", .int 7)]⟩]⟩
+def sBackToStored : Stmt :=
+  ⟨[.unwind (.listLit [.int 5, .int 0]) "x", .match_ false [⟨⟨some "n", ["P"], []⟩, []⟩]],
+   [.set [.prop "n" "v" (.var "x")]]⟩
+def sTwoItems : Stmt :=
+  ⟨[.match_ false [⟨⟨some "n", ["P"], []⟩, []⟩]], [.set [.prop "n" "v" (.lit (.int 2)), .prop "n" "v" (.lit (.int 0))]]⟩
+def sRelBack : Stmt :=
+  ⟨[.unwind (.listLit [.int 8, .int 7]) "x",
+    .match_ false [⟨⟨some "a", [], []⟩, [(⟨some "r", ["T"], .out, []⟩, ⟨some "b", [], []⟩)]⟩]],
+   [.set [.prop "r" "w" (.var "x")]]⟩
+
+example : NoKnownUTrigger small [] gP ["P", "T"] sBackToStored = true ∧ NoKnownUTrigger small [] gP ["P", "T"] sTwoItems = true
+    ∧ NoKnownUTrigger small [] gP ["P", "T"] sRelBack = true := by decide
+example : UAgrees (Update.step small [] gP 1 ["P", "T"] sBackToStored) (Spec.apply small [] gP 1 sBackToStored) := by decide
+example : UAgrees (Update.step small [] gP 1 ["P", "T"] sTwoItems) (Spec.apply small [] gP 1 sTwoItems) := by decide
+example : UAgrees (Update.step small [] gP 1 ["P", "T"] sRelBack) (Spec.apply small [] gP 1 sRelBack) := by decide
+example : (Update.step small [] gP 1 ["P", "T"] sBackToStored).toOption.map (fun r => nodeVal r.1 0 "v") =
+    some (some (.int 0)) := by decide
+/-- the log the model issues for it holds BOTH calls (nothing elided) -/
+example : (Update.runStmt small [] gP 1 ["P", "T"] sBackToStored).toOption.map (·.1) =
+    some [.setNodeProp 0 "v" (.int 5), .setNodeProp 0 "v" (.int 0)] := by decide
+/-- what the seeded engine does (drop the second call because 0 is the SNAPSHOT value) changes the result -/
+example : nodeVal (Update.applyOps gP [.setNodeProp 0 "v" (.int 5)]) 0 "v" = some (.int 5) ∧
+    nodeVal (Update.applyOps gP [.setNodeProp 0 "v" (.int 5), .setNodeProp 0 "v" (.int 0)]) 0 "v" = some (.int 0) := by
+  decide
+/-- two statements in one transaction against one snapshot: the staged log is the concatenation, the last wins -/
+example : (Update.stepTxn small [] gP 1 ["P", "T"]
+      [⟨[.match_ false [⟨⟨some "n", ["P"], []⟩, []⟩]], [.set [.prop "n" "v" (.lit (.int 5))]]⟩,
+       ⟨[.match_ false [⟨⟨some "n", ["P"], []⟩, []⟩]], [.set [.prop "n" "v" (.lit (.int 0))]]⟩]).toOption.map
+      (fun r => (nodeVal r.1 0 "v", r.2.2.1)) = some (some (.int 0), [1, 1]) := by decide
 
 /-! ### counterexamples: `C12_full` is false of the model (and of the engine: corpus/update/*.ops) -/
 
